@@ -53,3 +53,11 @@ package tokenizers
 //@   ensures result == c.column
 //@   assigns nothing
 //@   nopanic
+
+// the symbol state a tokenizer is configured with (ghost view of ITokenizer.SymbolState)
+//@ ufun symState(t ITokenizer) ISymbolState
+//@ interface ITokenizer.SymbolState(self)
+//@   requires self != nil
+//@   ensures result == symState(self)
+//@   assigns nothing
+//@   nopanic
